@@ -46,7 +46,7 @@ EXHAUSTIVE = {
     "term_exh": "every Pauli string over {I,X,Y,Z} on 2 (quick) / 3 (thorough) qubits, identity included, "
                 "x 6 (coefficient, time) variants",
 }
-BUDGET = {"quick": (4, 30, 900), "thorough": (16, 150, 6000)}
+BUDGET = {"quick": (4, 30, 700), "thorough": (16, 150, 6000)}
 CASE_TIMEOUT = {"quick": 15, "thorough": 40}
 
 TOL = 1e-9
